@@ -99,12 +99,14 @@ func rangeOverRootPair(v ssa.Value) (ssa.Value, bool) {
 }
 
 func c04(c *Ctx) {
+	defer c04LoadAcceptsNonce(c)
 	r := c.R
 	r.Rule("R-C04.1", "every x509.CreateCertificate in the authorisation helper uses a template literal that is not a CA, has ExtKeyUsage exactly {ClientAuth}, CommonName and first DNS name = the record ID = KeyIdFromPkix(request certificate key), SubjectKeyId = that key, NotBefore/NotAfter = the issuing root certificate's, public key parsed from that same key, parent and signer from one SigningParams() of the loop's root; the loop ranges over {roots.Current, roots.Next} of the loaded roots; the stored bundle's CA certificate is that root's")
 	r.Rule("R-C04.2", "every path to encrypting/returning credentials passes validation success and the three equalities K.RegistrationNonce/R.Nonce, K.CertificatePublicKeyPkix/R.CertificatePublicKeyPkix, K.EncryptionPublicKeyBytes/R.EncryptionPublicKeyBytes (so only the key matching the signed request can open the response and it echoes that request's nonce); the fetch response is built from the record K: NodeCredentials.RegistrationNonce/CertificateBundles from K, server public key derived from K's private key, EncryptMessage(nodeCreds, K), signature = Sign(_, the encrypted bytes placed in the response) by roots.Current's signer")
 	r.Rule("R-C04.3", "in the authorisation helper no field of the record is written after its Store call, and the returned record is the stored object or the record reloaded after a duplicate-record error")
 	r.Rule("R-C04.4", "HandleFetchNodeCredentialsResponse: every success return and the copy of certificate bundles are cut by successful DecryptMessage(input.EncryptedNodeCredentials, n, new) and by byte-equality of the expected nonce with new.RegistrationNonce")
 	r.Rule("R-C04.6", "sibling agreement on the node's nonce: the value HandleFetchNodeCredentialsResponse compares with the decrypted RegistrationNonce has the same sources (the credentials' RegistrationNonce; the base58-decoded activation token option) as the value CreateFetchNodeCredentialsRequest puts into the signed request")
+	r.Rule("R-C04.7", "stored credentials can be read back in every flow: LoadNodeCredentials applies no length test to the registration nonce (operator flow: 32 bytes; activation-token flow: the decoded token, longer), so a node can reload its credentials before enrollment completes")
 	r.Rule("R-C04.5", "the server encryption private key is a fresh 32-byte buffer filled from the random reader with error and length checked before the record is stored")
 	r.NotDecided = append(r.NotDecided, "that enrollment always completes on every back end and configuration (liveness)", "x509/TLS acceptance of the issued chain", "AEAD/X25519 semantics ('only the matching private key can open the response')")
 
@@ -645,4 +647,53 @@ func c04Handle(c *Ctx) {
 			r.CutOb(p, "R-C04.4", name+" "+s.nm+" guard="+g.Name, p.Pos(s.in.Pos()), res, g)
 		}
 	}
+}
+
+
+// c04LoadAcceptsNonce: R-C04.7.
+func c04LoadAcceptsNonce(c *Ctx) {
+	p, r := c.P, c.R
+	L := c.need("R-C04.7", "types", "LoadNodeCredentials")
+	if L == nil {
+		return
+	}
+	// values stored into the record's RegistrationNonce (the unsealed plaintext)
+	nonceVals := map[ssa.Value]bool{}
+	for _, site := range core.SplitFind(L, nil, func(in ssa.Instruction) bool { _, ok := in.(*ssa.Store); return ok }) {
+		st := site.Instr.(*ssa.Store)
+		site.In(func() {
+			if strings.TrimPrefix(core.PathOf(st.Addr).Last(), "&") == "RegistrationNonce" {
+				nonceVals[core.Strip(st.Val)] = true
+			}
+		})
+	}
+	bad := ""
+	for _, site := range core.SplitFind(L, nil, func(in ssa.Instruction) bool { _, ok := in.(*ssa.If); return ok }) {
+		ifi := site.Instr.(*ssa.If)
+		bo, ok := ifi.Cond.(*ssa.BinOp)
+		if !ok {
+			continue
+		}
+		for _, side := range []ssa.Value{bo.X, bo.Y} {
+			lc, isLen := side.(*ssa.Call)
+			if !isLen || core.CalleeName(lc.Common()) != "builtin:len" {
+				continue
+			}
+			other := bo.Y
+			if side == bo.Y {
+				other = bo.X
+			}
+			k, isK := core.ConstInt(other)
+			if !isK || k == 0 {
+				continue // emptiness tests are fine
+			}
+			site.In(func() {
+				v := core.Strip(lc.Call.Args[0])
+				if strings.TrimPrefix(core.PathOf(v).Last(), "&") == "RegistrationNonce" || nonceVals[v] {
+					bad = fmt.Sprintf("length of the registration nonce compared with %d at %s", k, p.Pos(ifi.Pos()))
+				}
+			})
+		}
+	}
+	r.Check(bad == "", "R-C04.7", "types.LoadNodeCredentials registration-nonce length", p.Pos(L.Pos()), "no length requirement on the stored nonce", bad+": credentials created for the activation-token flow (token-sized nonce) cannot be loaded, so that enrollment cannot complete")
 }
